@@ -10,8 +10,8 @@ from . import gen
 from .fsops import Recorder
 from .procs import ChildCrashed, run_forked
 
-KINDS = ['json', 'numpy', 'pandas', 'generated', 'lazy', 'listnpy', 'dir', 'continues']
-SIDE = ('.run_info.yaml', '.log')
+KINDS = ['json', 'numpy', 'pandas', 'generated', 'lazy', 'listnpy', 'dir', 'continues', 'figure']
+SIDE = ('.run_info.yaml', '.log', '.png', '.svg')   # (.png / .svg: renderings FigureData writes next to the pickled figure)
 
 
 def module(kind):
